@@ -34,6 +34,30 @@ Theorem C11_zero_size_is_invalid : forall t a, zero_size t a = true -> shape_val
 Proof. exact zero_size_invalid. Qed.
 Print Assumptions C11_zero_size_is_invalid.
 
+(* ... and a zero-size / invalid shape WITH a `filter` attribute (filter function such as blur(2), or a link): convert_group goes
+   on to filter::convert.  If that yields no filter and leaves the cache alone when the element has no bounding box - which
+   is what parser/filter.rs does for filter functions as long as the facts of `filter_facts` hold (no bbox => return before
+   anything; the filter id is generated after the region check) - nothing remains: no group, no counter moved. *)
+Theorem C11_zero_shape_filter_noop :
+  forall (state : Type) (st_in_clip st_no_markers : state -> bool)
+         (conv_path : tag -> attrs -> conv_t state) (conv_image : attrs -> conv_t state) (conv_text : node -> conv_t state)
+         (conv_use : attrs -> option (option tag * attrs) -> conv_t state -> conv_t state -> conv_t state)
+         (conv_nested_svg : attrs -> conv_t state -> conv_t state) (obj_bbox : ogroup -> option qrect)
+         (res_clip res_mask : string -> state -> option qrect -> cache -> option string * cache)
+         (res_filter : attrs -> state -> option qrect -> cache -> option (list string) * cache)
+         (t : tag) (a : attrs) (ch : nodes) (top clip : bool) (st : state) (c : cache) (p : ogroup),
+  tag_in t impl_shape_tags = true -> shape_valid t a = false -> a_clip a = None -> a_mask a = None ->
+  (forall g, og_ch g = [] -> obj_bbox g = None) ->
+  (forall c', res_filter a st None c' = (Some [], c')) ->
+  conv_elem state st_in_clip st_no_markers conv_path conv_image conv_text conv_use conv_nested_svg obj_bbox
+            res_clip res_mask res_filter (Node (Some t) a ch) top clip st c p = (c, p).
+Proof. exact zero_shape_filter_noop. Qed.
+Print Assumptions C11_zero_shape_filter_noop.
+
+Theorem C11_filter_facts_lock : filter_facts = [FF_NoBBoxReturnsEarly; FF_GenIdAfterRegionCheck].
+Proof. exact filter_facts_lock. Qed.
+Print Assumptions C11_filter_facts_lock.
+
 (* convert_children / convert_clip_path_elements do not see ignorable siblings, wherever they stand *)
 Theorem C11_context_free :
   forall (state : Type) (st_in_clip st_no_markers : state -> bool)
